@@ -43,7 +43,7 @@ def main(tier, seed):
                 outcomes[k] = outcomes.get(k, 0) + 1
     run.notes["cases_per_family"] = fam
     run.notes["outcomes"] = dict(sorted(outcomes.items(), key=lambda x: -x[1])[:40])
-    if len(fam) < 16:
+    if len(fam) < 17:
         raise ToolError("not every hostile family was exercised: %s" % sorted(fam))
     validate_traces(run, "VmTotalTrace.tla", {}, ["Inv"], files, "total-trace", timeout=1800,
                     site_of=lambda m: str(m.get("event", {}).get("fam") or m.get("state", {}).get("fam")))
@@ -82,6 +82,6 @@ def main(tier, seed):
                         "the harness is built with overflow checks and debug assertions on, so arithmetic or assertion panics that release builds hide are seen",
                         "a hang is a run that makes no progress for 30 s (all runs are bounded by their instruction budget)"]
     return run.finish("model_checking",
-                      "hostile inputs of 17 families compiled and run in a crash-isolated driver (panics caught, aborts and hangs turned into records); TLC "
+                      "hostile inputs of 18 families compiled and run in a crash-isolated driver (panics caught, aborts and hangs turned into records); TLC "
                       "validates every history against VmTotal: only Compile(ok|error kind) and Run(ok|error kind) events exist, every case reaches `done`, "
                       "and for the resource families the error kind is the specified one")
